@@ -36,14 +36,14 @@ def plan(tier, seed):
         for part in range(4):
             specs.append(dict(kind='pairs3', order=o, part=part, parts=4,
                               hashseed=k))
-    ns = 64 if tier == 'thorough' else 8
+    ns = 64 if tier == 'thorough' else 16
     for k in range(ns):
         specs.append(dict(kind='sampled', sub=k, n=1 + (k % 5),
-                          rounds=60 if tier == 'thorough' else 14,
+                          rounds=60 if tier == 'thorough' else 24,
                           auto=(k % 4 == 3), hashseed=k))
     for k in range(ns):
         specs.append(dict(kind='sift', sub=k, n=2 + k % 5,
-                          rounds=40 if tier == 'thorough' else 12,
+                          rounds=40 if tier == 'thorough' else 20,
                           auto=(k % 3 == 2), hashseed=100 + k))
     meta = dict(
         rule=RULE,
@@ -96,6 +96,9 @@ def pairs3(ctx, spec):
                 bdd.incref(r)
                 ext[abs(r)] += 1
                 held.append((r, t))
+            # unreferenced nodes present when the operation starts
+            for g in ((k * 37 + 11) % 256, (k * 101 + 7) % 256)[:k % 3]:
+                build(bdd, g, sp)
             if action < 2:
                 site = 'swap'
                 x, y = action, action + 1
@@ -183,6 +186,13 @@ def sampled(ctx, spec):
             raise
         ctx.counters['held_refs_rechecked'] += len(w.pool)
 
+    def garbage():
+        # unreferenced nodes present when the reordering starts
+        # (functions of few variables: some levels stay independent)
+        for _ in range(rng.randint(0, 3)):
+            w.build(random_table(rng, w.sp, kind=rng.random()))
+        ctx.counters['reorderings_started_with_garbage'] += 1
+
     def one_round(rnd):
         # new held set: 1-6 functions, plus unheld garbage
         while len(w.pool) > rng.randint(0, 2):
@@ -215,6 +225,7 @@ def sampled(ctx, spec):
         for p in targets:
             order = {v: i for i, v in enumerate(p)}
             start = tuple(sorted(w.raw.vars, key=w.raw.vars.get))
+            garbage()
             if kind == 'bdd':
                 w._b.reorder(w.raw, order)
             else:
@@ -234,6 +245,7 @@ def sampled(ctx, spec):
                 k = rng.randint(1, n // 2)
                 pairs = {vs[2 * j]: vs[2 * j + 1] for j in range(k)}
                 start = tuple(sorted(w.raw.vars, key=w.raw.vars.get))
+                garbage()
                 w._b.reorder_to_pairs(w.raw, pairs)
                 for x, y in pairs.items():
                     if abs(w.raw.vars[x] - w.raw.vars[y]) != 1:
